@@ -1,7 +1,157 @@
 import CogentModel.Json
-open CogentModel
+import CogentModel.Model.AnnotDb
+open CogentModel CogentModel.AnnotDb CogentModel.Gen.C17Sql
 
-def handle (cmd : String) (_j : J) : Except String J :=
-  throw s!"unknown command {cmd}"
+def optStr : J → Except String (Option String)
+  | .null => pure none
+  | .str s => pure (some s)
+  | _ => throw "not a string/null"
+
+def getOpt (j : J) (k : String) : J := (j.get? k).getD .null
+
+def parseSpans (j : J) : Except String (List (Int × Int)) := j.toListOf (J.toPairOf J.toInt J.toInt)
+
+def parseRec (j : J) : Except String Rec := do
+  pure { seqid := ← optStr (getOpt j "seqid"), biotype := ← optStr (getOpt j "biotype"),
+         name := ← optStr (getOpt j "name"), strand := ← optStr (getOpt j "strand"),
+         attrs := ← optStr (getOpt j "attrs"), spans := ← parseSpans (← j.get "spans"),
+         start := ← (← j.get "start").toInt, stop := ← (← j.get "stop").toInt }
+
+def ofOptStr : Option String → J
+  | none => .null
+  | some s => .str s
+
+def spansJ (s : List (Int × Int)) : J := J.arr (s.map fun p => J.arr [J.num p.1, J.num p.2])
+
+def recJ (r : Rec) : J :=
+  J.obj [("seqid", ofOptStr r.seqid), ("biotype", ofOptStr r.biotype), ("name", ofOptStr r.name),
+         ("strand", ofOptStr r.strand), ("attrs", ofOptStr r.attrs), ("spans", spansJ r.spans),
+         ("start", J.num r.start), ("stop", J.num r.stop)]
+
+def parseQuery (j : J) : Except String Query := do
+  pure { biotype := ← optStr (getOpt j "biotype"), seqid := ← optStr (getOpt j "seqid"),
+         name := ← optStr (getOpt j "name"), strand := ← optStr (getOpt j "strand"),
+         attributes := ← optStr (getOpt j "attributes"),
+         start := ← (getOpt j "start").toOptInt, stop := ← (getOpt j "stop").toOptInt,
+         allowPartial := ← match getOpt j "allow_partial" with | .null => pure false | b => b.toBool }
+
+def parseKind (j : J) : Except String Kind := do
+  match ← j.toStr with
+  | "basic" => pure .basic
+  | "gff" => pure .gff
+  | "genbank" => pure .genbank
+  | s => throw s!"bad kind {s}"
+
+def kindStr : Kind → String
+  | .basic => "basic" | .gff => "gff" | .genbank => "genbank"
+
+/-- db JSON: {"kind": .., "tables": {"user": [rec..], "gff": [..]}} (missing table = empty) -/
+def parseDb (j : J) : Except String Db := do
+  let k ← parseKind (← j.get "kind")
+  let tj := getOpt j "tables"
+  let tables ← (tableNames k).mapM fun n => do
+    match tj.get? n with
+    | none => pure (n, ([] : List Rec))
+    | some rs => pure (n, ← rs.toListOf parseRec)
+  pure { kind := k, tables := tables }
+
+def dbJ (db : Db) : J :=
+  J.obj [("kind", J.str (kindStr db.kind)),
+         ("tables", J.obj (db.tables.map fun t => (t.1, J.arr (t.2.map recJ))))]
+
+def errStr : Err → String
+  | .typeError => "TypeError"
+  | .operationalError => "OperationalError"
+
+def parseCondVal (j : J) : Except String (Option CondVal) :=
+  match j with
+  | .null => pure none
+  | .str s => pure (some (.one s))
+  | .arr xs => do pure (some (.many (← xs.mapM J.toStr)))
+  | _ => throw "bad seqids"
+
+partial def parseLoc (j : J) : Except String Loc := do
+  match ← j.toList with
+  | [J.str "seg", a, b] => pure (.seg (← a.toInt) (← b.toInt))
+  | [J.str "join", J.arr xs] => do pure (.join (← xs.mapM parseLoc))
+  | [J.str "complement", x] => do pure (.complement (← parseLoc x))
+  | _ => throw "bad loc"
+
+def parseRow (j : J) : Except String GffRow := do
+  pure { id := ← optStr (getOpt j "id"), seqid := ← (← j.get "seqid").toStr,
+         biotype := ← (← j.get "biotype").toStr, strand := ← (← j.get "strand").toStr,
+         attrs := ← (← j.get "attrs").toStr, start := ← (← j.get "start").toInt,
+         stop := ← (← j.get "stop").toInt }
+
+/-- op machine over a register of dbs; returns every db at the end, or the error that stopped it -/
+def runOps : List Db → List J → Except String (List Db × Option String)
+  | dbs, [] => pure (dbs, none)
+  | dbs, op :: ops => do
+    let l ← op.toList
+    let get (i : J) : Except String Db := do
+      let n ← i.toNat
+      match dbs[n]? with | some d => pure d | none => throw "bad db index"
+    let set (i : J) (d : Db) : Except String (List Db) := do
+      let n ← i.toNat
+      pure (dbs.set n d)
+    match l with
+    | [J.str "new", k] => do runOps (dbs ++ [Db.empty (← parseKind k)]) ops
+    | [J.str "add", i, r] => do
+      let d ← get i
+      runOps (← set i (addFeature d (← parseRec r))) ops
+    | [J.str "addtable", i, t, r] => do
+      let d ← get i
+      runOps (← set i (addToTable d (← t.toStr) [← parseRec r])) ops
+    | [J.str "update", i, k, s] => do
+      let d ← get i
+      let o ← get k
+      match update d o (← parseCondVal s) with
+      | .ok d' => runOps (← set i d') ops
+      | .error e => pure (dbs, some (errStr e))
+    | [J.str "union", i, k] => do
+      match union (← get i) (← get k) with
+      | .ok d' => runOps (dbs ++ [d']) ops
+      | .error e => pure (dbs, some (errStr e))
+    | [J.str "subset", i, q] => do
+      match subset (← get i) (← parseQuery q) with
+      | .ok d' => runOps (dbs ++ [d']) ops
+      | .error e => pure (dbs, some (errStr e))
+    | [J.str "copy", i] => do runOps (dbs ++ [← get i]) ops
+    | _ => throw "bad op"
+
+def handle (cmd : String) (j : J) : Except String J :=
+  match cmd with
+  | "sql" => do
+    let s ← (← j.get "s").toInt; let e ← (← j.get "e").toInt
+    let a ← (← j.get "a").toInt; let b ← (← j.get "b").toInt
+    pure (J.arr [J.bool (matchPartial s e a b), J.bool (matchWithin s e a b),
+                 J.bool (matchStartOnly s e a), J.bool (matchStopOnly s e b)])
+  | "queries" => do
+    let db ← parseDb (← j.get "db")
+    let qs ← (← j.get "qs").toListOf parseQuery
+    pure (J.arr (qs.map fun q => J.arr ((getMatching db q).map recJ)))
+  | "nummatches" => do
+    let db ← parseDb (← j.get "db")
+    let qs ← (← j.get "qs").toListOf parseQuery
+    pure (J.arr (qs.map fun q => J.num (numMatches db q)))
+  | "norm" => do
+    let spans ← parseSpans (← j.get "spans")
+    let r := mkUserRec "s" "b" "n" none none spans
+    pure (J.obj [("spans", spansJ r.spans), ("start", J.num r.start), ("stop", J.num r.stop)])
+  | "gff" => do
+    let (s, e) := gffCoords (← (← j.get "first").toInt) (← (← j.get "last").toInt)
+    pure (J.arr [J.num s, J.num e])
+  | "gb" => do
+    let l ← parseLoc (← j.get "loc")
+    pure (J.obj [("spans", spansJ (gbCoords l)), ("strand", ofOptStr (gbStrand l))])
+  | "like" => do
+    pure (J.bool (likeMatch (← (← j.get "p").toStr).toList (← (← j.get "t").toStr).toList))
+  | "gffload" => do
+    let blocks ← (← j.get "blocks").toListOf (J.toListOf parseRow)
+    pure (J.arr ((loadGffBlocks blocks).map recJ))
+  | "ops" => do
+    let (dbs, err) ← runOps [] (← (← j.get "ops").toList)
+    pure (J.obj [("dbs", J.arr (dbs.map dbJ)), ("err", ofOptStr err)])
+  | _ => throw s!"unknown command {cmd}"
 
 def main : IO Unit := driverLoop handle
